@@ -36,6 +36,12 @@ def impl_one(src: str):
         nodes = cst_parser(chunks)
     except Exception as e:  # noqa
         return {"chunks": chunks, "error": core.exc_name(e)}
+    # guard: output that is much larger than the input can never concatenate to it; do not ship it to the parent (a change that makes
+    # results accumulate across calls would otherwise cost tens of gigabytes)
+    total = sum(len(n.value) for n in nodes)
+    if total > 2 * len(src) + 100 or len(nodes) > 2 * len(chunks) + 10:
+        return {"chunks": chunks, "nodes": [], "oversized": "%d nodes with %d characters for %d chunks / %d characters of input" % (len(nodes), total, len(chunks), len(src))}
+
     def flat(ns):
         return [{"kind": type(n).__name__, "start": n.line_no_start, "stop": n.line_no_end, "value": n.value,
                  "name": getattr(n, "name", None), "is_double_q": getattr(n, "is_double_q", None), "is_docstr": getattr(n, "is_docstr", None)} for n in ns]
@@ -58,6 +64,8 @@ def oracle(src: str, r: dict):
     """The property itself, on the real output. Returns None or a description of the failure."""
     if "error" in r:
         return "raises %s" % r["error"]
+    if "oversized" in r:
+        return "node values do not concatenate to the input: " + r["oversized"]
     if "entry_point_nodes" in r:
         top = r["entry_point_nodes"]
         if isinstance(top, dict):
